@@ -258,6 +258,14 @@ func main() {
 			panic(err)
 		}
 		g.bad = kd.bad
+		if os.Getenv("C09_DEBUG") != "" {
+			for _, b := range kd.bad {
+				fmt.Fprintf(os.Stderr, "keydir %s: refused %s %s\n", pc.name, b.kind, b.hex())
+			}
+			for _, k := range g.keys {
+				fmt.Fprintf(os.Stderr, "keydir %s: good %s\n", pc.name, k.Hex())
+			}
+		}
 		coqAddrs := func(addrs []string) string {
 			var cs []string
 			for _, a := range addrs {
@@ -536,7 +544,10 @@ func main() {
 					st.Samples = append(st.Samples, map[string]interface{}{"process": pc.name, "body": clip(string(sc.body), 500), "status": status, "reply": clip(string(res.Body), 300), "backend_frames": d.Frames})
 				}
 				if *replay != "" {
-					fmt.Printf("implementation: status=%d reply=%s\nframes:\n  %s\n", status, clip(string(res.Body), 2000), strings.Join(d.Frames, "\n  "))
+					for i := range frames {
+						fmt.Printf("backend answered frame %d (%s): status=%d %s\n", i, frames[i].Method, frames[i].ReplyStatus, clip(string(frames[i].ReplyBody), 300))
+					}
+					fmt.Printf("implementation: status=%d reply=%s\nframes:\n  %s\n", status, clip(string(res.Body), 20000), strings.Join(d.Frames, "\n  "))
 				}
 			}
 		}
